@@ -469,7 +469,7 @@ where
 			};
 			let batch = batch.build()?;
 			let batch_len = batch.len();
-			let id = self.id_manager.next_request_id();
+			let id = self.id_manager.next_batch_request_id(batch_len);
 			let id_range = generate_batch_id_range(id, batch_len as u64)?;
 
 			let mut batch_request = Batch::with_capacity(batch.len());
